@@ -140,10 +140,39 @@ pub fn replay(o: &Opts) -> Value {
         let b: Value = serde_json::from_str(&line).expect("json");
         n += 1;
         let ty = b["ty"].as_str().unwrap();
-        let v = plain(&b["v"]);
+        // a behaviour of MC_Schema carries its type as data (`schema`): the schema-driven serde client is used instead of
+        // the hand-written family type of that name, and values stay in the tagged form of the specification
+        let dynty: Option<crate::dynser::Ty> = b.get("schema").map(crate::dynser::Ty::parse);
+        let v = if dynty.is_some() { b["v"].clone() } else { plain(&b["v"]) };
+        let ser = |ty: &str, v: &Value, so: &SerOpts| -> Result<String, String> {
+            match &dynty {
+                Some(t) => crate::dynser::ser(t, v, so.root.as_deref().unwrap_or("R"), &crate::dynser::SerOpts { quote: so.quote, indent: so.indent, expand_empty: so.expand_empty }),
+                None => crate::family::ser(ty, v, so),
+            }
+        };
+        let de_str = |ty: &str, doc: &str| -> Result<Value, String> {
+            match &dynty {
+                Some(t) => crate::dynser::de_str(t, doc),
+                None => crate::family::de_str(ty, doc),
+            }
+        };
+        let de_eq = |ty: &str, doc: &str, v: &Value| -> Result<bool, String> {
+            match &dynty {
+                Some(t) => crate::dynser::de_str(t, doc).map(|x| x == *v),
+                None => crate::family::de_eq(ty, doc, v),
+            }
+        };
+        let de_reader = |ty: &str, doc: &[u8], cuts: &[usize]| -> Result<Value, String> {
+            match &dynty {
+                Some(t) => crate::dynser::de_reader(t, doc, cuts),
+                None => crate::family::de_reader(ty, doc, cuts),
+            }
+        };
         let rt = b["rt"] == 1;
+        // (MC_Schema: indentation is meaningful for every generated value, the round trip only on the documented domain)
+        let rtrip = b.get("rtrip").map_or(true, |x| x == 1);
         let root_s = text(&b["root"]);
-        let root = if root_s == ty { None } else { Some(root_s.clone()) };
+        let root = if root_s == ty || b.get("schema").is_some() { None } else { Some(root_s.clone()) };
         let model_fail = b["fail"] == 1;
         let tree: Vec<Value> = b["tree"].as_array().cloned().unwrap_or_default();
         let mut bad: Option<(String, Value)> = None;
@@ -158,7 +187,7 @@ pub fn replay(o: &Opts) -> Value {
             let mut plain_de: Option<Result<Value, String>> = None;
             // ---- the entry points that write into an io::Write sink deliver the same bytes as the String ones, whatever
             // number of bytes the sink accepts per call
-            if ["c06", "c13"].contains(&o.aspect.as_str()) {
+            if ["c06", "c13"].contains(&o.aspect.as_str()) && dynty.is_none() {
                 let root_name = root.clone().unwrap_or_else(|| "root".to_string());
                 for max in [1usize, 7] {
                     let [a, b, c, d] = crate::family::ser_entry_points(ty, &v, &root_name, max);
@@ -191,7 +220,7 @@ pub fn replay(o: &Opts) -> Value {
                         match (&out, model_fail) {
                             (Err(e), false) if e.starts_with("json:") => panic!("family and schema registry disagree: {e} for {ty} {v}"),
                             (Err(e), false) => {
-                                if rt {
+                                if rt && rtrip {
                                     note(&mut local_bad, &["c06"], "serialization-failed-on-the-domain", json!({"error": e, "opts": format!("{so:?}")}));
                                 } else {
                                     drift += 1; // C13 allows an error instead of a document
@@ -219,7 +248,7 @@ pub fn replay(o: &Opts) -> Value {
                             }
                         }
                         // ---- C06 / C19: deserializing gives the value back, whatever the options
-                        if rt && !model_fail && root.is_none() && !ty.starts_with('H') {
+                        if rt && rtrip && !model_fail && root.is_none() && !ty.starts_with('H') {
                             let d = de_str(ty, &doc);
                             runs += 1;
                             match de_eq(ty, &doc, &v) {
